@@ -190,7 +190,7 @@ void zigzag_case(S v, mc::Ctx &ctx) {
 
 // ---------------------------------------------------------------- scalars
 template <class T, bool kExact>
-const char *scalar_rt(T v, EncoderBuffer &eb) {
+const char *scalar_rt(T v, EncoderBuffer &eb, bool truncated = true) {
   eb.Clear();
   if (!eb.Encode(v)) return "encode-returned-false";
   if (eb.size() != sizeof(T)) return "wrong-size";
@@ -212,7 +212,7 @@ const char *scalar_rt(T v, EncoderBuffer &eb) {
       T more;
       if (db.Decode(&more) || db.Peek(&more)) return "decode-past-end-succeeded";
     }
-    for (size_t k = 0; k < sizeof(T); ++k) {
+    for (size_t k = 0; truncated && k < sizeof(T); ++k) {
       Exact ex(eb.data(), k);
       DecoderBuffer db;
       db.Init(ex.p, ex.n);
@@ -231,8 +231,8 @@ const char *scalar_rt(T v, EncoderBuffer &eb) {
   return nullptr;
 }
 template <class T>
-void scalar_case(T v, EncoderBuffer &eb, mc::Ctx &ctx) {
-  const char *w = scalar_rt<T, true>(v, eb);
+void scalar_case(T v, EncoderBuffer &eb, mc::Ctx &ctx, bool truncated = true) {
+  const char *w = scalar_rt<T, true>(v, eb, truncated);
   if (w) ctx.fail(std::string("scalar:") + TN<T>::s() + ":" + w, "value " + show_val(v));
 }
 
@@ -295,11 +295,13 @@ void run_struct64(uint64_t idx, mc::Ctx &ctx) {
   varint_case<uint64_t>(u, eb, ctx, &multi);
   varint_case<int64_t>(i, eb, ctx, &multi);
   zigzag_case<int64_t>(i, ctx);
-  scalar_case<uint64_t>(u, eb, ctx);
-  scalar_case<int64_t>(i, eb, ctx);
+  // truncated scalar reads do not depend on the value: first 340 values only
+  const bool tr = idx < 340;
+  scalar_case<uint64_t>(u, eb, ctx, tr);
+  scalar_case<int64_t>(i, eb, ctx, tr);
   double d;
   memcpy(&d, &u, 8);
-  scalar_case<double>(d, eb, ctx);
+  scalar_case<double>(d, eb, ctx, tr);
   ctx.count("varint64_len" + std::to_string(ref_len(u)));
   if (multi && !ctx.replay) ctx.sh->distinct_n[1].fetch_add(multi, std::memory_order_relaxed);
 }
@@ -313,9 +315,12 @@ std::string describe_struct64(uint64_t idx) {
 }
 
 // ------------------------------------------------- 32-bit: all 2^32 values
-// One index = 2^16 consecutive values. kExact selects the ASan slice flavour.
+// One index = 2^16 consecutive bit patterns u; each is written as
+// [varint u32][varint i32][u32][i32][f32][sentinel byte] into one stream and
+// read back. kExact selects the ASan slice flavour (exact-size heap block,
+// every truncated varint prefix).
 template <bool kExact>
-void run_varint32_chunk(uint64_t chunk, mc::Ctx &ctx) {
+void run_ints32_chunk(uint64_t chunk, mc::Ctx &ctx) {
   EncoderBuffer eb;
   uint64_t lens[6] = {0, 0, 0, 0, 0, 0};
   uint64_t multi = 0;
@@ -323,38 +328,51 @@ void run_varint32_chunk(uint64_t chunk, mc::Ctx &ctx) {
   for (uint32_t j = 0; j < 65536; ++j) {
     const uint32_t u = base + j;
     const int32_t s = static_cast<int32_t>(u);
-    // both values in one stream: [varint u32][varint i32][sentinel]
+    float f;
+    memcpy(&f, &u, 4);
     eb.Clear();
     bool ok = EncodeVarint<uint32_t>(u, &eb);
     const size_t l1 = eb.size();
     ok = EncodeVarint<int32_t>(s, &eb) && ok;
     const size_t l2 = eb.size() - l1;
-    ok = eb.Encode(static_cast<uint8_t>(0xA5)) && ok;
-    uint32_t ou = 0x5a5a5a5a;
-    int32_t os = 0x5a5a5a5a;
-    uint8_t sent = 0;
+    ok = eb.Encode(u) && eb.Encode(s) && eb.Encode(f) && eb.Encode(static_cast<uint8_t>(0xA5)) && ok;
+    ok = ok && eb.size() == l1 + l2 + 13;
     bool good = ok;
     if (good) {
+      uint32_t ou = 0x5a5a5a5a, ou2 = 0x5a5a5a5a;
+      int32_t os = 0x5a5a5a5a, os2 = 0x5a5a5a5a;
+      float of = 0;
+      uint8_t sent = 0;
       DecoderBuffer db;
       if (kExact) {
         Exact ex(eb.data(), eb.size());
         db.Init(ex.p, ex.n);
         good = DecodeVarint<uint32_t>(&ou, &db) && ou == u && DecodeVarint<int32_t>(&os, &db) && os == s &&
-               db.Decode(&sent) && sent == 0xA5 && db.remaining_size() == 0;
+               db.Decode(&ou2) && ou2 == u && db.Decode(&os2) && os2 == s && db.Decode(&of) && memcmp(&of, &u, 4) == 0 &&
+               db.Decode(&sent) && sent == 0xA5 && db.remaining_size() == 0 && !db.Decode(&ou2) &&
+               !DecodeVarint<uint32_t>(&ou, &db);
       } else {
         db.Init(eb.data(), eb.size());
         good = DecodeVarint<uint32_t>(&ou, &db) && ou == u && DecodeVarint<int32_t>(&os, &db) && os == s &&
+               db.Decode(&ou2) && ou2 == u && db.Decode(&os2) && os2 == s && db.Decode(&of) && memcmp(&of, &u, 4) == 0 &&
                db.Decode(&sent) && sent == 0xA5 && db.remaining_size() == 0;
       }
     }
     if (!good) {
-      // slow path: find out which of the two failed and how
+      // slow path: find out which primitive failed and how
       int len;
+      bool any = false;
       const char *w = varint_rt<uint32_t, kExact>(u, eb, &len);
-      if (w) ctx.fail(std::string("varint:u32:") + w + "|len" + std::to_string(ref_len(u)), "value " + show_val(u));
-      const char *w2 = varint_rt<int32_t, kExact>(s, eb, &len);
-      if (w2) ctx.fail(std::string("varint:i32:") + w2 + "|len" + std::to_string(ref_len(s)), "value " + show_val(s));
-      if (!w && !w2) ctx.fail("varint:u32+i32:concatenated-stream-mismatch", "value " + show_val(u));
+      if (w) ctx.fail(std::string("varint:u32:") + w + "|len" + std::to_string(ref_len(u)), "value " + show_val(u)), any = true;
+      w = varint_rt<int32_t, kExact>(s, eb, &len);
+      if (w) ctx.fail(std::string("varint:i32:") + w + "|len" + std::to_string(ref_len(s)), "value " + show_val(s)), any = true;
+      w = scalar_rt<uint32_t, kExact>(u, eb);
+      if (w) ctx.fail(std::string("scalar:u32:") + w, "value " + show_val(u)), any = true;
+      w = scalar_rt<int32_t, kExact>(s, eb);
+      if (w) ctx.fail(std::string("scalar:i32:") + w, "value " + show_val(s)), any = true;
+      w = scalar_rt<float, kExact>(f, eb);
+      if (w) ctx.fail(std::string("scalar:f32:") + w, "value " + show_val(f)), any = true;
+      if (!any) ctx.fail("ints32:concatenated-stream-mismatch", "value " + show_val(u));
     }
     if (kExact) {
       const char *w = varint_truncated<uint32_t>(u, eb);
@@ -370,63 +388,22 @@ void run_varint32_chunk(uint64_t chunk, mc::Ctx &ctx) {
   }
   for (int l = 0; l <= 5; ++l)
     if (lens[l]) ctx.count(l ? "varint32_len" + std::to_string(l) : std::string("varint32_len_other"), lens[l]);
+  ctx.count("scalar32_values", 3 * 65536);
   if (!ctx.replay) ctx.sh->distinct_n[1].fetch_add(multi, std::memory_order_relaxed);
 }
 
-template <bool kExact>
-void run_scalar32_chunk(uint64_t chunk, mc::Ctx &ctx) {
-  EncoderBuffer eb;
-  const uint32_t base = static_cast<uint32_t>(chunk << 16);
-  uint64_t n = 0;
-  for (uint32_t j = 0; j < 65536; ++j) {
-    const uint32_t u = base + j;
-    const int32_t s = static_cast<int32_t>(u);
-    float f;
-    memcpy(&f, &u, 4);
-    eb.Clear();
-    bool ok = eb.Encode(u) && eb.Encode(s) && eb.Encode(f) && eb.Encode(static_cast<uint8_t>(0xA5));
-    ok = ok && eb.size() == 13;
-    bool good = ok;
-    if (good) {
-      uint32_t ou = 0x5a5a5a5a;
-      int32_t os = 0x5a5a5a5a;
-      float of = 0;
-      uint8_t sent = 0;
-      DecoderBuffer db;
-      if (kExact) {
-        Exact ex(eb.data(), eb.size());
-        db.Init(ex.p, ex.n);
-        good = db.Decode(&ou) && ou == u && db.Decode(&os) && os == s && db.Decode(&of) && memcmp(&of, &u, 4) == 0 &&
-               db.Decode(&sent) && sent == 0xA5 && db.remaining_size() == 0 && !db.Decode(&ou);
-      } else {
-        db.Init(eb.data(), eb.size());
-        good = db.Decode(&ou) && ou == u && db.Decode(&os) && os == s && db.Decode(&of) && memcmp(&of, &u, 4) == 0 &&
-               db.Decode(&sent) && sent == 0xA5 && db.remaining_size() == 0;
-      }
-    }
-    if (!good) {
-      const char *w = scalar_rt<uint32_t, kExact>(u, eb);
-      if (w) ctx.fail(std::string("scalar:u32:") + w, "value " + show_val(u));
-      const char *w2 = scalar_rt<int32_t, kExact>(s, eb);
-      if (w2) ctx.fail(std::string("scalar:i32:") + w2, "value " + show_val(s));
-      const char *w3 = scalar_rt<float, kExact>(f, eb);
-      if (w3) ctx.fail(std::string("scalar:f32:") + w3, "value " + show_val(f));
-      if (!w && !w2 && !w3) ctx.fail("scalar:u32+i32+f32:concatenated-stream-mismatch", "value " + show_val(u));
-    }
-    ++n;
-  }
-  ctx.count("scalar32_values", 3 * n);
-}
-
-// ASan slice of the 2^32 sweep: chunks around every varint length boundary,
-// the sign boundary, both ends, and every 128th chunk.
-std::vector<uint32_t> g_slice_chunks;
+// ASan slices of the 2^32 sweep (chunk = 2^16 values): slice A = chunks around
+// every varint length boundary, the sign boundary, both ends and every 1024th
+// chunk (both tiers); slice B = every 128th chunk not in A (thorough).
+std::vector<uint32_t> g_slice_a, g_slice_b;
 void build_slice() {
-  std::set<uint32_t> s;
+  std::set<uint32_t> a;
   const uint32_t special[] = {0, 1, 31, 32, 33, 4095, 4096, 4097, 16383, 16384, 32767, 32768, 32769, 49152, 65534, 65535};
-  for (uint32_t c : special) s.insert(c);
-  for (uint32_t c = 0; c < 65536; c += 128) s.insert(c);
-  g_slice_chunks.assign(s.begin(), s.end());
+  for (uint32_t c : special) a.insert(c);
+  for (uint32_t c = 0; c < 65536; c += 1024) a.insert(c);
+  g_slice_a.assign(a.begin(), a.end());
+  for (uint32_t c = 0; c < 65536; c += 128)
+    if (!a.count(c)) g_slice_b.push_back(c);
 }
 
 // ---------------------------------------------------------------- bit coders
@@ -468,7 +445,10 @@ std::string show_calls(const Calls &cs) {
   return s;
 }
 
-// Input class used in signatures (and as klass for crash attribution).
+// Input class used in signatures (and as klass for crash attribution). For
+// the symbol coder the class is the magnitude of the largest value (that is
+// what its defects depend on), for the others the kind of calls and the
+// widest call.
 std::string calls_klass(int cid, const Calls &cs) {
   bool any_bit = false, any_lsb = false;
   int maxw = 0;
@@ -479,14 +459,15 @@ std::string calls_klass(int cid, const Calls &cs) {
     maxw = std::max<int>(maxw, cs.c[i].n);
     maxv = std::max(maxv, cs.c[i].v & mask_n(cs.c[i].n));
   }
+  if (cid == SYMBOL) {
+    if (maxv >= 0x80000000u) return "symbol>=2^31";
+    if (maxv == 0x7FFFFFFFu) return "symbol==2^31-1";
+    if (maxv >= (1u << 26)) return "symbol in [2^26,2^31-1)";
+    if (maxv >= (1u << 18)) return "symbol in [2^18,2^26)";
+    return "symbol<2^18";
+  }
   std::string k = any_bit && any_lsb ? "mixed" : any_lsb ? "lsb32" : "bitwise";
   k += maxw <= 7 ? ",w<=7" : maxw <= 30 ? ",w8-30" : maxw == 31 ? ",w31" : ",w32";
-  if (cid == SYMBOL) {
-    if (maxv >= 0x80000000u) k += ",symbol>=2^31";
-    else if (maxv >= (1u << 26)) k += ",symbol in [2^26,2^31)";
-    else if (maxv >= (1u << 18)) k += ",symbol in [2^18,2^26)";
-    else k += ",symbol<2^18";
-  }
   return k;
 }
 
@@ -701,20 +682,23 @@ void build_comps() {
 }
 uint32_t wide_pattern(int n, int k, int cid) {
   const uint32_t m = mask_n(n);
+  uint32_t v;
   switch (k) {
-    case 0: return 0;
-    case 1: return 1;
-    case 2: return 1u << (n - 1);
-    case 3:
-      // The symbol coder crashes on 0xffffffff (defect reported through the
-      // widths_symbol space); a crash costs a worker restart, so the big
-      // space uses 0xfffffffe there (which throws std::length_error instead).
-      return (cid == SYMBOL && n == 32) ? 0xFFFFFFFEu : m;
-    case 4: return 0x55555555u & m;
-    case 5: return 0xAAAAAAAAu & m;
-    case 6: return (1u << (n - 1)) - 1u;
-    default: return 0x92345678u & m;
+    case 0: v = 0; break;
+    case 1: v = 1; break;
+    case 2: v = 1u << (n - 1); break;
+    case 3: v = m; break;
+    case 4: v = 0x55555555u & m; break;
+    case 5: v = 0xAAAAAAAAu & m; break;
+    case 6: v = (1u << (n - 1)) - 1u; break;
+    default: v = 0x92345678u & m; break;
   }
+  // The symbol coder aborts the process on 0x7fffffff (signed overflow of
+  // max_value + 1 in ComputeShannonEntropy) and, before e3d4048, on
+  // 0xffffffff. Both values are exercised in widths_symbol; a crash costs a
+  // worker restart, so this large space uses the neighbours below them.
+  if (cid == SYMBOL && (v == 0x7FFFFFFFu || v == 0xFFFFFFFFu)) v -= 1;
+  return v;
 }
 void parts_from_index(uint64_t idx, int cid, Calls *cs) {
   size_t ci = std::upper_bound(g_comp_offset.begin(), g_comp_offset.end(), idx) - g_comp_offset.begin() - 1;
@@ -1225,8 +1209,8 @@ int main(int argc, char **argv) {
   R.rule =
       "exhaustive enumeration, nothing sampled. varint/zig-zag/Encode<T>: every 8- and 16-bit value, every one of the 2^32 "
       "32-bit values (as u32, i32 and f32 bit pattern; -O2 part, plus an ASan slice of " +
-      std::to_string(g_slice_chunks.size()) +
-      " chunks of 2^16 values around every length/sign boundary), every 64-bit value built from 7-bit groups {00,01,40,7f} "
+      std::to_string(g_slice_a.size()) + " (quick) / " + std::to_string(g_slice_a.size() + g_slice_b.size()) +
+      " (thorough) chunks of 2^16 values around every length/sign boundary and at regular strides), every 64-bit value built from 7-bit groups {00,01,40,7f} "
       "over 1..10 groups; bit coders (rans, adaptive, direct, folded<rans>, symbol): every bit string of length 0..16 "
       "(quick) / 0..20 (thorough) fed with EncodeBit, every sequence of EncodeLeastSignificantBits32(n,v) calls with n in "
       "{1,2,7,31,32} whose payload is <= 9 (quick) / <= 12 (thorough) bits where widths 1/2/7 take all values and widths "
@@ -1250,36 +1234,27 @@ int main(int argc, char **argv) {
       "for the rANS based coders reads past the written data are only required to be memory safe (their bits depend on "
       "the coder state); zeros/failure is required of DecoderBuffer and DirectBitDecoder",
       "single allocations above 256 MiB are refused with std::bad_alloc by the harness allocator cap",
-      "SymbolBit coder in the large call-sequence space uses 0xfffffffe instead of 0xffffffff as the all-ones 32-bit "
-      "pattern (0xffffffff is exercised in widths_symbol) to bound the number of crashing cases"};
+      "SymbolBit coder in the large call-sequence spaces uses 0x7ffffffe / 0xfffffffe instead of 0x7fffffff / 0xffffffff "
+      "(those two values are exercised in widths_symbol) to bound the number of process-aborting cases"};
   R.transition_counters = {"bufsm_transitions"};
 
+  auto ints32_describe = [](uint64_t chunk, const char *pre) {
+    char b[260];
+    snprintf(b, sizeof b,
+             "%svarint u32, varint i32, Encode<u32>, Encode<i32>, Encode<f32> and zig-zag of all 2^16 bit patterns "
+             "0x%08llx..0x%08llx",
+             pre, (unsigned long long)(chunk << 16), (unsigned long long)((chunk << 16) + 65535));
+    return std::string(b);
+  };
   if (sweep) {
     // part run at -O2: all 2^32 values
     mc::Space a;
-    a.name = "varint32_all";
+    a.name = "ints32_all";
     a.size = 65536;
-    a.cases_per_index = 2 * 65536;
-    a.run = [](uint64_t idx, mc::Ctx &ctx) { run_varint32_chunk<false>(idx, ctx); };
-    a.describe = [](uint64_t idx) {
-      char b[160];
-      snprintf(b, sizeof b, "EncodeVarint/DecodeVarint + zig-zag of all u32 and i32 values with bit patterns 0x%08llx..0x%08llx",
-               (unsigned long long)(idx << 16), (unsigned long long)((idx << 16) + 65535));
-      return std::string(b);
-    };
+    a.cases_per_index = 5 * 65536;
+    a.run = [](uint64_t idx, mc::Ctx &ctx) { run_ints32_chunk<false>(idx, ctx); };
+    a.describe = [=](uint64_t idx) { return ints32_describe(idx, ""); };
     R.add(a);
-    mc::Space s;
-    s.name = "scalar32_all";
-    s.size = 65536;
-    s.cases_per_index = 3 * 65536;
-    s.run = [](uint64_t idx, mc::Ctx &ctx) { run_scalar32_chunk<false>(idx, ctx); };
-    s.describe = [](uint64_t idx) {
-      char b[160];
-      snprintf(b, sizeof b, "Encode<T>/Decode<T> of all u32, i32 and f32 bit patterns 0x%08llx..0x%08llx",
-               (unsigned long long)(idx << 16), (unsigned long long)((idx << 16) + 65535));
-      return std::string(b);
-    };
-    R.add(s);
     R.require("varint32_len5", 1);
     R.require("varint32_len1", 1);
     return R.main();
@@ -1306,33 +1281,18 @@ int main(int argc, char **argv) {
     sp.describe = describe_struct64;
     R.add(sp);
   }
-  {
+  for (int k = 0; k < 2; ++k) {
+    const std::vector<uint32_t> *chunks = k ? &g_slice_b : &g_slice_a;
     mc::Space sp;
-    sp.name = "varint32_asan_slice";
-    sp.size = g_slice_chunks.size();
-    sp.cases_per_index = 2 * 65536;
-    sp.run = [](uint64_t idx, mc::Ctx &ctx) { run_varint32_chunk<true>(g_slice_chunks[idx], ctx); };
-    sp.describe = [](uint64_t idx) {
-      char b[200];
-      const unsigned long long c = g_slice_chunks[idx];
-      snprintf(b, sizeof b, "ASan slice: varint (+ every truncated prefix) and zig-zag of all u32/i32 bit patterns 0x%08llx..0x%08llx",
-               c << 16, (c << 16) + 65535);
-      return std::string(b);
+    sp.name = k ? "ints32_asan_slice_b" : "ints32_asan_slice_a";
+    sp.size = chunks->size();
+    sp.quick = k == 0;
+    sp.cases_per_index = 5 * 65536;
+    sp.run = [=](uint64_t idx, mc::Ctx &ctx) { run_ints32_chunk<true>((*chunks)[idx], ctx); };
+    sp.describe = [=](uint64_t idx) {
+      return ints32_describe((*chunks)[idx], "ASan slice (exact-size block, every truncated varint prefix): ");
     };
     R.add(sp);
-    mc::Space s2;
-    s2.name = "scalar32_asan_slice";
-    s2.size = g_slice_chunks.size();
-    s2.cases_per_index = 3 * 65536;
-    s2.run = [](uint64_t idx, mc::Ctx &ctx) { run_scalar32_chunk<true>(g_slice_chunks[idx], ctx); };
-    s2.describe = [](uint64_t idx) {
-      char b[200];
-      const unsigned long long c = g_slice_chunks[idx];
-      snprintf(b, sizeof b, "ASan slice: Encode<T>/Decode<T> of all u32/i32/f32 bit patterns 0x%08llx..0x%08llx", c << 16,
-               (c << 16) + 65535);
-      return std::string(b);
-    };
-    R.add(s2);
   }
   for (int cid = 0; cid < kNumCoders; ++cid) {
     add_bits_space(R, cid, 0, 16, true, true);
